@@ -511,6 +511,18 @@ class Router:
         except (PacketTooLongException, SendingException):
             pass
 
+    def _cbf_discard_buffered(self, cbf_key: tuple) -> None:
+        """
+        §F.3: a duplicate of a packet waiting in the CBF buffer was overheard.
+
+        Stop the contention timer and drop the buffered copy so that it is not
+        re-broadcast.  Does nothing when no copy is buffered under *cbf_key*.
+        """
+        with self._cbf_lock:
+            timer = self._cbf_buffer.pop(cbf_key, None)
+            if timer is not None:
+                timer.cancel()
+
     def gn_area_cbf_forwarding(
         self,
         basic_header: BasicHeader,
@@ -1661,6 +1673,9 @@ class Router:
             print("Incongruent Timestamp Detected!")
         except DuplicatedPacketException:
             print("Packet is duplicated")
+            # §F.3: an overheard duplicate suppresses the copy still waiting in the CBF buffer
+            self._cbf_discard_buffered(
+                (gbc_extended_header.so_pv.gn_addr, gbc_extended_header.sn))
         except DecodeError as e:
             print(str(e))
         return None
